@@ -111,6 +111,27 @@ def opSpecDist : J.Op := fun j => do
     | none => "?"
   pure <| J.obj [("ok", J.ofBool ok), ("detail", J.ofStr detail), ("want", J.ofList J.ofRat want)]
 
+/-- relational Spec of "the set of efficient objective vectors is unaffected by the order of points": the masks
+    of the implementation on a point list and on a permuted copy mark the same set of weighted vectors
+    (`Pareto.Q.specSameVectors`; `Props/C19.spec_same_vectors_iff`, `spec_same_vectors_sound`) -/
+def opSpecSameVectors : J.Op := fun j => do
+  let fmat ← J.field j "fmat" (J.mat J.rat)
+  let fmat' ← J.field j "fmat2" (J.mat J.rat)
+  let wt ← J.field j "wt" (J.list J.rat)
+  let mask ← J.field j "mask" (J.list J.bool)
+  let mask' ← J.field j "mask2" (J.list J.bool)
+  pure <| J.ofBool (Pareto.Q.specSameVectors (fmat.map (Pareto.Q.applyWt wt)) (fmat'.map (Pareto.Q.applyWt wt)) mask mask')
+
+/-- relational Spec of "invariant to translation of the front" / "the three copies agree": two result vectors of the
+    implementation are finite, equally long and equal within the tolerance rule
+    (`Pareto.Q.specCloseAll`; `Props/C19.spec_close_all_iff`, `spec_close_all_refl`) -/
+def opSpecClose : J.Op := fun j => do
+  let d ← J.field j "d" (J.list (J.opt J.rat))
+  let d' ← J.field j "d2" (J.list (J.opt J.rat))
+  let rel ← J.field j "rel" J.rat
+  let abs_ ← J.field j "abs" J.rat
+  pure <| J.ofBool (Pareto.Q.specCloseAll rel abs_ d d')
+
 /-- digits of `k` in base `lv`, most significant first, exactly `n` of them
     (`itertools.product(range(lv), repeat=n)` enumerates in this order) -/
 def digits (lv n k : Nat) : List Nat :=
@@ -146,6 +167,7 @@ def opExh : J.Op := fun j => do
 def ops : List (String × J.Op) :=
   [("c19.pareto", opPareto), ("c19.spec_pareto", opSpecPareto),
    ("c19.dominates", opDominates), ("c19.spec_dominates", opSpecDominates),
-   ("c19.dist", opDist), ("c19.spec_dist", opSpecDist), ("c19.wsum", opWsum), ("c19.exh", opExh)]
+   ("c19.dist", opDist), ("c19.spec_dist", opSpecDist), ("c19.wsum", opWsum), ("c19.exh", opExh),
+   ("c19.spec_same_vectors", opSpecSameVectors), ("c19.spec_close", opSpecClose)]
 
 end Drv.C19
